@@ -6,17 +6,70 @@ Every operation line is answered on four sides with  e=<illegal transition or ->
 x=<owner slots whose liveness contradicts the owner's size/index> A=<owner> B=<owner>;  a `detail` line after
 every operation compares the full slot map of both owners and the cumulative count of every kind of special
 member call between implementation and model only (spec/std column `*`)."""
+import concurrent.futures as cf
 import itertools
 import os
 import random
+import sys
 
+import lib
 from lib import Case, fmt_list
 
 PROP = "C03"
 DRIVER = "drv-c03"
 PROOF_MODULES = ["TetlProofs.C03.Props"]
 HARNESS = "harness/c03.cpp"
-HARNESS_FLAGS = ["-O0", "-g1"]
+BASE_FLAGS = ["-O0", "-g1"]
+HARNESS_FLAGS = list(BASE_FLAGS)
+NPARTS = 6     # one translation unit per element kind (harness/c03.cpp: -DC03_PART=k), compiled in parallel by run()
+
+
+def _build_parts():
+    """compile the six element kinds of the harness in parallel; returns the object files.  An object file is reused when the
+    preprocessed translation unit (every header of the tree under test expanded), the flags and the compiler are byte-identical
+    to those it was compiled from: any change of the library gives a new key."""
+    import hashlib
+    os.makedirs(lib.BUILD, exist_ok=True)
+    cache = os.path.join(lib.BUILD, "c03_objcache")
+    os.makedirs(cache, exist_ok=True)
+    flags = [f for f in lib.CXXFLAGS if f != "-g"] + BASE_FLAGS
+    cxxv = lib.sh([lib.CXX, "--version"])[1]
+
+    def one(k):
+        base = [lib.CXX] + flags + ["-DC03_PART=%d" % k, "-I", os.path.join(lib.REPO, "include"), "-I", os.path.join(lib.VERIF, "harness")]
+        src = os.path.join(lib.VERIF, HARNESS)
+        rc, o, e = lib.sh(base + ["-E", src], timeout=600)
+        if rc != 0:
+            return None, rc, o[-200:] + e
+        key = hashlib.sha256((cxxv + "\0" + " ".join(flags) + "\0" + o).encode()).hexdigest()[:32]
+        out = os.path.join(cache, "part%d_%s.o" % (k, key))
+        if os.path.exists(out):
+            os.utime(out)
+            return out, 0, "cached"
+        tmp = out + ".%d.tmp" % os.getpid()
+        rc, o, e = lib.sh(base + ["-c", src, "-o", tmp], timeout=1200)
+        if rc == 0:
+            os.replace(tmp, out)
+        return out, rc, o + e
+
+    with cf.ThreadPoolExecutor(max_workers=NPARTS) as ex:
+        res = list(ex.map(one, range(NPARTS)))
+    bad = [r for r in res if r[1] != 0]
+    if bad:
+        raise lib.MachineryError("harness does not compile against %s:\n%s" % (lib.REPO, bad[0][2][-1500:]))
+    olds = sorted((os.path.join(cache, f) for f in os.listdir(cache)), key=os.path.getmtime)
+    for f in olds[:-12 * NPARTS]:
+        os.unlink(f)
+    return [r[0] for r in res]
+
+
+def run(ctx, replay=None):
+    """standard flow of check.py, with the element kinds of the harness pre-compiled in parallel"""
+    global HARNESS_FLAGS
+    objs = _build_parts()
+    HARNESS_FLAGS = BASE_FLAGS + ["-DC03_PART=-1"] + objs
+    import check
+    return check.standard(sys.modules[__name__], ctx, replay)
 SOURCES = ["include/etl/_vector/static_vector.hpp", "include/etl/_inplace_vector/inplace_vector.hpp",
            "include/etl/_variant/variant.hpp", "include/etl/_variant/variadic_union.hpp",
            "include/etl/_optional/optional.hpp", "include/etl/_expected/expected.hpp",
@@ -29,7 +82,17 @@ SOURCES = ["include/etl/_vector/static_vector.hpp", "include/etl/_inplace_vector
 RULE = ("A case is a history on two owners A, B of one type, ended by the destruction of both. Owners: static_vector, "
         "inplace_vector, stack<static_vector>, static_set, flat_set<static_vector> (capacity 2,3,4), variant of 3 instrumented "
         "alternatives, optional, expected, inplace_function with 2 callable types; element kinds copy+move, move-only, "
-        "copy-only (move-only cannot be stored in inplace_function). Exhaustive part: for the containers, from EVERY pair of "
+        "copy-only with every special member user-provided (move-only cannot be stored in inplace_function), and three MIXED "
+        "copy+move kinds in which some special members are defaulted (trivial, byte-wise, invisible to the registry) next to "
+        "user-provided ones: da = defaulted copy/move assignment with user-provided constructors and destructor, dm = defaulted "
+        "move constructor and move assignment with user-provided copy operations and destructor, dc = defaulted copy constructor "
+        "and copy assignment with user-provided move operations and destructor — the kinds on which the owners' requires "
+        "clauses (variant_trivially_copy/move_assignable, trivially-constructible / destructible clauses) decide between the "
+        "owner's own special member and the defaulted one. For the mixed kinds variant / optional / expected are explored like "
+        "the other kinds (every pair of operations from every pair of live alternatives); the quick tier runs the containers' "
+        "one-step box at capacities 2,3 with a 14% sample of the operation pairs, and for inplace_function every single "
+        "operation from every start with a 30% sample of the pairs; the thorough tier samples their depth-3 sequences at half "
+        "the rate of the other kinds. Exhaustive part: for the containers, from EVERY pair of "
         "sizes (|A|,|B|) in [0,cap]^2 every member with every position / range / count it accepts (one-step box), and from "
         "every size pair every sequence of 2 (thorough: 3) operations of an alphabet of 12-19 letters that contains every "
         "copy/move/assign/swap/self form; for variant / optional / expected / inplace_function from EVERY pair of live "
@@ -43,8 +106,18 @@ RULE = ("A case is a history on two owners A, B of one type, ended by the destru
         "reference simulation (the same predicates as Tetl.C03.vvalid/svalid/xvalid/fvalid). After EVERY operation the slot "
         "map of both owners, the number of live locals and the cumulative per-kind event counts are compared with the model. "
         "A case is non-trivial when at least one element was alive in an owner after some step; distinct = distinct case text.")
-ASSUMPTIONS = ["the element type's special members are noexcept and have no other side effect than the registry update; the move "
-               "operations of the copy+move and move-only kinds reset their source",
+ASSUMPTIONS = ["the element type's user-provided special members are noexcept and have no other side effect than the registry update and "
+               "the value; user-provided move operations reset their source, defaulted (trivial) ones copy the object representation "
+               "and leave the source as it is",
+               "mixed kinds: a defaulted special member is invisible; an object that came to life through a defaulted (trivial) "
+               "constructor is adopted by the registry when a user-provided member first meets it or when the owner claims its slot "
+               "after an operation, unless its bytes are those of a destroyed object (every destructor leaves a mark) — so for the "
+               "kinds dm and dc an object created by a raw copy of bytes is indistinguishable from one created by the trivial "
+               "constructor (it is what that constructor does); an object that is never destroyed, a destructor or a user-provided "
+               "member on destroyed storage, a constructor over a live object and every event count of a user-provided member are "
+               "still seen; every kind has a user-provided destructor (a trivial one would make the end of a lifetime unobservable)",
+               "is_trivially_copy/move_constructible_v includes the destructor (g++ 12 builtin; static_asserts in the harness), so "
+               "no harness kind takes the defaulted constructor path of variant / inplace_vector; the model and the theorems cover it",
                "an owner that was the source of a move is in the valid-but-unspecified state: the spec/std side prints `u` for it and "
                "histories only destroy it, give it a new value, or use it as the source/peer of copy, move and swap; the model "
                "still predicts its slots and event counts exactly",
@@ -55,14 +128,16 @@ ASSUMPTIONS = ["the element type's special members are noexcept and have no othe
                "gives no guarantee for t = move(t)); on a moved-from object it is legal, which is what the generic swap(a, a) does",
                "std column: std::vector / std::set operations for the containers; for variant / optional / expected / function the "
                "postconditions of the standard written out (index and value after each operation)"]
-TRUSTED = ["hand model Tetl/C03/Model.lean + Session.lean (event sequences) tied to the source by the correspondence run (R1: slot "
-           "maps and per-kind event counts after every operation) on every run",
+TRUSTED = ["hand model Tetl/C03/Model.lean + Session.lean (event sequences, and which path — the owner's own special member or the "
+           "defaulted one — the requires clauses select for the trait bits of the element kind) tied to the source by the "
+           "correspondence run (R1: slot maps and per-kind event counts after every operation) on every run",
            "the instrumented element type and address registry of harness/c03.cpp",
            "spec Tetl/C03/Spec.lean validated against the std-side bookkeeping (R2) on every run"]
 _P = "Tetl.C03.Props."
 _VEC = [_P + "vec_step_safe", _P + "vec_reach_inv", _P + "vec_finish_balanced", _P + "vec_history_safe"]
 _SET = [_P + "set_step_safe", _P + "set_reach_inv", _P + "set_history_safe"]
 _ALT = [_P + "alt_step_safe", _P + "alt_reach_inv", _P + "alt_finish_balanced", _P + "alt_history_safe"]
+_ALT_ASSIGN = _ALT + [_P + "alt_bytes_assign_unsafe_without_trivial_ctor", _P + "alt_traits_consistent"]
 _FN = [_P + "fn_step_safe", _P + "fn_reach_inv", _P + "fn_finish_balanced", _P + "fn_history_safe"]
 THEOREMS = {op: _VEC for op in
             ["push_c", "push_m", "emplace_back", "try_push_c", "try_push_m", "try_emplace_back", "pop", "ins_c", "ins_m",
@@ -72,15 +147,20 @@ THEOREMS.update({op: _ALT for op in ["vemplace", "vemplace_c", "vemplace_m", "va
                                      "reset", "use"]})
 THEOREMS.update({op: _SET for op in ["sins_c", "sins_m", "semplace", "erase_key", "extract", "replace"]})
 THEOREMS["vassign_own"] = _ALT + [_P + "alt_assign_own_id"]
+# variant = variant (also optional / expected): the path depends on the trait bits of the alternative type
+_VEC_AND_ALT_ASSIGN = _VEC + [t for t in _ALT_ASSIGN if t not in _VEC]
 THEOREMS.update({op: _FN for op in ["fctor_c", "fctor_m", "fassign_c", "fassign_m", "fconv_cc", "fconv_mc", "fconv_ca", "fconv_ma",
                                     "massign_self", "invoke"]})
 THEOREMS["swap_self"] = _VEC + [_P + "vec_swap_self_id", _P + "alt_swap_self_id", _P + "fn_swap_self_id"]
 THEOREMS["cassign_self"] = _VEC + [_P + "alt_copy_assign_self_id", _P + "fn_assign_self_id"]
+for _op in ("cassign", "massign", "swap"):
+    THEOREMS[_op] = _VEC_AND_ALT_ASSIGN
 SEARCH_CAP = 300000
 
 VEC_OWNERS = ["sv", "iv", "st", "ss", "fs"]
 ALT_OWNERS = ["var", "opt", "exp"]
-KINDS = ["cm", "mo", "co"]
+KINDS = ["cm", "mo", "co", "da", "dm", "dc"]
+MIXED = ["da", "dm", "dc"]   # copy+move element types with some defaulted (trivial) special members
 
 
 # ---------------------------------------------------------------- which members exist (mirrors the harness)
@@ -377,8 +457,9 @@ def generate(tier, seed):
             continue
         for kind in KINDS:
             mem = vec_members(own, kind)
+            mixed = kind in MIXED
             for cap in (2, 3, 4):
-                if cap == 4 and not thorough and own not in ("sv",):
+                if cap == 4 and not thorough and (own not in ("sv",) or mixed):
                     continue
                 head = "new own=%s kind=%s cap=%d" % (own, kind, cap)
                 for na in range(cap + 1):
@@ -404,9 +485,9 @@ def generate(tier, seed):
                 shapes = [(0, 0), (1, 0), (2, 1), (3, 2), (3, 3), (0, 3)]
                 for na, nb in shapes:
                     for seq in itertools.product([(m, t) for m in alpha for t in (0, 1)], repeat=depth):
-                        if not thorough and rnd.random() > 0.35:
+                        if not thorough and rnd.random() > (0.14 if mixed else 0.35):
                             continue
-                        if thorough and rnd.random() > 0.12:
+                        if thorough and rnd.random() > (0.06 if mixed else 0.12):
                             continue
                         sim = new_sim(own, cap)
                         lines = [head] + fill_lines(own, kind, cap, na, nb, sim)
@@ -440,6 +521,7 @@ def generate(tier, seed):
             else:
                 starts = [[], ["vemplace t=0 j=0 v=3"], ["vemplace_m t=1 j=0 v=5"]]
             depth = 3 if thorough else 2
+            mixed = kind in MIXED
             letters = []
             for m in mem:
                 for t in (0, 1):
@@ -448,9 +530,23 @@ def generate(tier, seed):
                         sim.has = [True, True]
                     for args in sim.instances(m, t, None, full=True) or [""]:
                         letters.append((m, t, args))
+            if mixed and not thorough and own == "fn":
+                # quick tier, mixed kinds, inplace_function: from every start EVERY single operation (exhaustive), pairs sampled below
+                for st in starts:
+                    for m, t, args in letters:
+                        sim = new_sim(own, 1)
+                        lines = [head]
+                        for ln in st:
+                            parts = ln.split(" ")
+                            sim.apply(parts[0], int(parts[1][2:]), " ".join(parts[2:]))
+                            lines.append(ln)
+                        if sim.instances(m, t, None, full=True):
+                            add(lines + [fmt_op(m, t, args)], "seq1/%s/%s" % (own, kind))
             for st in starts:
                 for seq in itertools.product(letters, repeat=depth):
-                    if depth == 3 and rnd.random() > {"var": 0.04, "fn": 0.08}.get(own, 0.25):
+                    if depth == 3 and rnd.random() > {"var": 0.04, "fn": 0.08}.get(own, 0.25) * (0.5 if mixed else 1.0):
+                        continue
+                    if depth == 2 and mixed and own == "fn" and rnd.random() > 0.3:
                         continue
                     if depth == 2 and own in ("var", "fn") and seq[0][1] != seq[1][1] and not (seq[0][0] in BINARY or seq[1][0] in BINARY):
                         # two single-owner operations on different owners touch disjoint storage and commute; each of
@@ -485,7 +581,7 @@ def generate(tier, seed):
     nrand = 12000 if thorough else 1500
     for _ in range(nrand):
         own = rnd.choice(VEC_OWNERS * 2 + ALT_OWNERS + ["fn"])
-        kind = rnd.choice(KINDS if own != "fn" else ["cm", "co"])
+        kind = rnd.choice(KINDS if own != "fn" else ["cm", "co"] + MIXED)
         cap = rnd.choice((2, 3, 4)) if own in VEC_OWNERS else 1
         mem = members_of(own, kind)
         sim = new_sim(own, cap)
@@ -535,17 +631,29 @@ LEVEL_TEXT = ("Storage is modelled as an arena of slots (dead, or live with the 
               "of inplace_function, the generic three-move swap). Each event is a partial transition: constructing over a live "
               "object, using or assigning dead storage, destroying twice, using an object as another alternative and move-"
               "assigning a value-holding object to itself are errors. Lean 4 proves, with no bound on the history length, the "
-              "capacity, the number of variant alternatives or the element kind (copy+move, move-only, copy-only), that from "
+              "capacity, the number of variant alternatives or the element kind — copy+move, move-only, copy-only, each with every "
+              "combination of user-provided / defaulted-trivial copy constructor, move constructor, copy assignment, move assignment "
+              "and destructor (a trivial move leaves its source as it is; the model takes the path the owners' requires clauses "
+              "select for these bits: variant's own copy/move assignment or the defaulted byte-wise one, which is an error "
+              "(not-destroyed / not-constructed) unless constructor and destructor are trivial; the defaulted move constructor of "
+              "inplace_vector, which leaves the source's size alone) —, that from "
               "every reachable state every operation inside its documented precondition runs without any such error, leaves "
               "exactly the slots [0,size) (resp. the slot of the live alternative / stored callable) alive and every local dead, "
               "keeps #constructed = #destroyed + #alive, and that destroying the owners leaves nothing alive with #constructed = "
               "#destroyed; moved-from owners satisfy the same invariant; self copy-assignment and self-swap return the identical "
               "slot contents, and so does the converting assignment of a variant from its own live alternative (v = "
-              "v[index_v<index()>], a copy self-assignment of the held object since the fix e7501ef; no operation is excluded). "
+              "v[index_v<index()>], a copy self-assignment of the held object since the fix e7501ef; the only exclusion is the "
+              "self-swap of a variant whose alternative type has a trivial move constructor next to a user-provided move "
+              "assignment, a self-move of a value-holding element). A counterexample theorem shows that the byte-wise assignment "
+              "is a lifetime error for an alternative with defaulted assignment but user-provided constructors (why "
+              "variant_trivially_copy_assignable needs its is_trivially_copy_constructible half). "
               "The model is tied to the current source on every run: an instrumented element type records every "
               "special member call in an address registry (live / dead / moved-from / alternative) and the slot maps of both "
               "owners, the number of live locals and the cumulative count of each kind of call are compared with the model after "
-              "every operation of exhaustive small-scope and random histories under ASan/UBSan.")
+              "every operation of exhaustive small-scope and random histories under ASan/UBSan, for six element kinds: three with "
+              "every special member user-provided and three mixed ones (defaulted assignment / defaulted move operations / "
+              "defaulted copy operations next to user-provided members), so that the paths selected by trivially-assignable "
+              "traits are instantiated.")
 LEVEL_NOTE = ("Trusted: Lean kernel + propext/Classical.choice/Quot.sound; fidelity of the hand model outside the explored histories "
               "(the control flow of the modelled members does not depend on element values except in the set lookups and erase_if); "
               "g++-12/ASan; the registry of the harness. Members in coverage.correspondence_only are modelled and compared on every "
